@@ -231,6 +231,7 @@ def attrs_of(st, out):
     ref = getattr(st, 'reference_data', None)
     if ref is not None and hasattr(ref, 'pixel_component_ids'):
         out.extend(ref.pixel_component_ids)     # a slice selection is carried to other datasets through pixel links
+
     return out
 
 
